@@ -228,9 +228,11 @@ func child(r *ev.Run, scenarios []Scenario, shard, shards int) {
 	start := time.Now()
 	for i := range scenarios {
 		sc := &scenarios[i]
-		// the wall-clock budget is shared: scenario i must stop at the (i+1)/n mark, time left over
-		// by an earlier scenario rolls over to the later ones (no scenario is starved by an earlier one)
-		deadline := start.Add(r.Budget * time.Duration(i+1) / time.Duration(len(scenarios)))
+		// the wall-clock budget is shared: a scenario may use whatever is left except a reserve of
+		// budget/(2n) for each scenario still to come (no scenario is starved by an earlier one, and an
+		// early expensive one is not cut short while time is plentiful)
+		n := time.Duration(len(scenarios))
+		deadline := start.Add(r.Budget - time.Duration(len(scenarios)-1-i)*r.Budget/(2*n))
 		sr := shardResult{Scenario: sc.Name, Outcomes: map[string]int{}, Counters: map[string]int{}}
 		opt := sc.Opt
 		opt.Shard, opt.Shards = shard, shards
